@@ -30,6 +30,46 @@ def segments(lines):
 
 class Ctx: pass
 
+class Merged:
+    """a property module merged with its parts tools/props/<id>_<topic>.py (lists concatenated, generators chained)"""
+    pass
+
+def load_property(pid):
+    import glob
+    base = importlib.import_module("props." + pid.lower())
+    parts = [importlib.import_module("props." + os.path.basename(f)[:-3])
+             for f in sorted(glob.glob(os.path.join(os.path.dirname(os.path.abspath(__file__)), "props", pid.lower() + "_*.py")))]
+    m = Merged()
+    for k in dir(base):
+        if not k.startswith("__"): setattr(m, k, getattr(base, k))
+    mods = [base] + parts
+    for k in ("THEOREMS", "LEAN_MODULES", "GEN", "TRUSTED", "ASSUMPTIONS"):
+        acc = []
+        for x in mods:
+            for v in getattr(x, k, []):
+                if v not in acc: acc.append(v)
+        setattr(m, k, acc)
+    gens = [x.gen_ops for x in mods if hasattr(x, "gen_ops")]
+    if gens:
+        def gen_ops(rng, tier, ctx=None):
+            for g in gens:
+                yield from g(rng, tier, ctx)
+        m.gen_ops = gen_ops
+    nts = [x.nontrivial for x in mods if hasattr(x, "nontrivial")]
+    if nts:
+        m.nontrivial = lambda line: next((k for k in (f(line) for f in nts) if k is not None), None)
+    exs = [x.extra for x in mods if hasattr(x, "extra")]
+    if exs:
+        def extra(ctx, cov):
+            out = []
+            for e in exs: out += e(ctx, cov) or []
+            return out
+        m.extra = extra
+    rules = [getattr(x, "RULE") for x in mods if hasattr(x, "RULE")]
+    if rules: m.RULE = " || ".join(rules)
+    m.PARTS = [x.__name__ for x in mods]
+    return m
+
 def differential(ctx, lines, label=""):
     """run lines through harness and driver; return (bad list, impl outputs, model outputs)"""
     if not lines: return [], [], []
@@ -76,7 +116,7 @@ def main():
     pid, tier, seed = a.pid, a.tier, a.seed
     if tier not in ("quick", "thorough"): tier = "quick"
     t0 = time.time()
-    mod = importlib.import_module("props." + pid.lower())
+    mod = load_property(pid)
     rng = random.Random("%s-%d" % (pid, seed))
     ctx = Ctx(); ctx.pid, ctx.tier, ctx.seed, ctx.rng, ctx.mod = pid, tier, seed, rng, mod
     ctx.mod_env = getattr(mod, "ENV", None); ctx.crash_stderr = ""
